@@ -181,6 +181,41 @@ def setValF (w : W) : Nat → Nat → Option Nat → Option W
         | none => none
         | some w' => some { w' with val := updF w'.val c v }
 
+/-- the setter with the order of its last two steps as a parameter: `storeFirst = false` is the
+code (forward to the receiver, then store: a refusal anywhere down the chain leaves every channel
+untouched), `storeFirst = true` stores before it forwards (then a refusal downstream leaves the
+channels above it changed).  The result carries the world also when it raises (`false`). -/
+def setValG (storeFirst : Bool) (w : W) : Nat → Nat → Option Nat → W × Bool
+  | 0, _, _ => (w, false)
+  | f + 1, c, v =>
+    if w.g.kind c = .dataIn ∧ w.locked (w.g.owner c) = true then (w, false)
+    else if admitsV w c v = false then (w, false)
+    else
+      match w.recv c with
+      | none => ({ w with val := updF w.val c v }, true)
+      | some r =>
+        if storeFirst then setValG storeFirst { w with val := updF w.val c v } f r v
+        else
+          match setValG storeFirst w f r v with
+          | (w', true) => ({ w' with val := updF w'.val c v }, true)
+          | (_, false) => (w, false)
+
+/-- `_copy_panel` over that setter (what is logged for unwinding is only what was assigned
+successfully) followed by the unwinding of a hard failure -/
+def copyPanelG (storeFirst : Bool) (fuel : Nat) :
+    W → List (Option Nat × Nat) → List (Nat × Option Nat) → W × List (Nat × Option Nat) × Bool
+  | w, [], log => (w, log, false)
+  | w, (my, oc) :: ps, log =>
+    match w.val oc with
+    | none => copyPanelG storeFirst fuel w ps log
+    | some v =>
+      match my with
+      | none => (w, log, true)
+      | some m =>
+        match setValG storeFirst w fuel m (some v) with
+        | (w', false) => (w', log, true)
+        | (w', true) => copyPanelG storeFirst fuel w' ps (log ++ [(m, w.val m)])
+
 /-- `_copy_panel`; `log` is `old_values`; the flag says that a hard failure stopped the loop -/
 def copyPanel (fuel : Nat) (hard : Bool) :
     W → List (Option Nat × Nat) → List (Nat × Option Nat) → W × List (Nat × Option Nat) × Bool
